@@ -432,6 +432,7 @@ def gen_c10(tier, rng):
 # C12: arbitrary bytes
 
 FOOTERS = [b"EST5EDT,M3.2.0,M11.1.0", b"STD5", b"", b"STD5DST,M3.2.0", b"STD5DST/1", b"EST5EDT,M3,M11.1.0", b":EST5",
+           b"EST5EDT,M3.2,M11.1.0", b"EST5EDT,M3.2.0,M11.1", b"EST5EDT,M3.2/2,M11.1.0/2", b"EST5EDT,J60,J300/", b"EST5EDT,M3.2.0,", b"EST5EDT,M3.2.0,M11.1.0,",
            b"STD-1DST0,J365/25:30,J1/0", b"STD5DST,J1/0,J1/0", b"STD5DST4,0/0,J365/25", b"<+03>-3<+04>,J1/-167,J365/167",
            b"STD5DST,M3.2.0/167,M3.2.0/-167", b"STD24DST-24,0,365", b"AAA0BBB,0/0,0/0", b"STD5\0junk", b"\xff\xfe\xfd5",
            b"STD5DST,M12.5.6/167,M1.1.0/-167", b"X" * 300 + b"5", b"STD5DST,366,1", b"STD5DST,J0,J1"]
@@ -544,6 +545,8 @@ def handcrafted_c12():
     out.append(("hc_f5", tzif.write_tzif(b"2", [I64_MIN, I64_MAX], [1, 2], ty, abbr, b"", v1_block=False)))
     out.append(("hc_f5b", tzif.write_tzif(b"2", [BIG_BANG + 1, I64_MAX], [1, 2], ty, abbr, b"", v1_block=False)))
     out.append(("hc_f8", tzif.write_tzif(b"3", [100000000], [1], [(0, 0, 0), (3600, 0, 4), (0, 1, 8)], abbr, b"STD-1DST0,J365/25:30,J1/0", v1_block=False)))
+    for i, f in enumerate([b"STD5DST,M3.2.0", b"STD5DST/1", b"STD5DST,M3,M11.1.0", b"STD5DST,M3.2,M11.1.0", b"STD5DST,M3.2.0,M11.1", b"STD5DST,M3.2.0,M11"]):
+        out.append(("hc_f3_%d" % i, tzif.write_tzif(b"2", [100000000], [1], ty, abbr, f, v1_block=False)))
     out.append(("hc_tie", tzif.write_tzif(b"2", [100000000], [1], ty, abbr, b"STD5DST4,J1/0,J1/0", v1_block=False)))
     out.append(("hc_types300dst", tzif.write_tzif(b"2", [100000000], [0], [(3600, 1, 0)] * 300, b"DST\0", b"", v1_block=False)))
     out.append(("hc_types300std", tzif.write_tzif(b"2", [100000000], [0], [(3600, 1, 0)] * 299 + [(0, 0, 0)], b"DST\0", b"", v1_block=False)))
